@@ -383,8 +383,8 @@ Example ex_sq_view : exists m es, sq_view ex_sq 1 = Some (m, es) /\ length es = 
   Forall ev_dom es /\ edge_dom ex_ws /\ edge_dom ex_we.
 Proof.
   eexists _, _. split; [vm_compute; reflexivity|]. split; [reflexivity|]. split.
-  - repeat constructor; vm_compute; intro; discriminate.
-  - split; intros w E; injection E as <-; vm_compute; split; intro; discriminate.
+  - repeat (constructor; [unfold ev_dom, eend, MAX_TIMESTAMP; cbn [ts dur]; lia|]). constructor.
+  - split; intros w E; injection E as <-; lia.
 Qed.
 
 (* a parameter that comes out 1 us high drops the event ending exactly at the rounded start *)
@@ -403,8 +403,8 @@ Example ex_pw_stored : exists es, pw_stored ex_pw 1 = Some es /\ length es = 5%n
   Forall pw_dom es /\ ordered ex_ws ex_we /\ cache_ok ex_pw 1.
 Proof.
   eexists. split; [vm_compute; reflexivity|]. split; [reflexivity|]. split.
-  - repeat constructor; vm_compute; intro; discriminate.
-  - split; [intros a z Ea Ez; injection Ea as <-; injection Ez as <-; vm_compute; intro; discriminate|].
+  - repeat (constructor; [unfold pw_dom, eend, DAY_US; cbn [ts dur]; lia|]). constructor.
+  - split; [intros a z Ea Ez; injection Ea as <-; injection Ez as <-; lia|].
     vm_compute. reflexivity.
 Qed.
 
@@ -414,6 +414,6 @@ Qed.
 Example ex_pw_read :
   pw_read sql_end_nearest ex_pw 1 (-1) ex_ws ex_we =
     Ok (OEvents [ mkEvent (Some 4) 1600000014000000 0 4; mkEvent (Some 3) 1600000009000000 5000000 3;
-                  mkEvent (Some 5) 1600000003000000 0 5; mkEvent (Some 2) 1600000003000000 0 2;
+                  mkEvent (Some 2) 1600000003000000 0 2; mkEvent (Some 5) 1600000003000000 0 5;
                   mkEvent (Some 1) 1600000003000000 7000000 1 ]).
 Proof. vm_compute. reflexivity. Qed.
